@@ -452,7 +452,7 @@ func runRandomC07(j *judge, c randCase) {
 	if !c.Legacy {
 		needs, err := remoteForTypeCheck(rem).DiffTypeCheck(ctxBg, loc.d)
 		equal := len(want.New)+len(want.Removed)+len(want.Ours)+len(want.Theirs) == 0
-		if err == nil && equal && needs {
+		if err == nil && equal && needs && c.tuningClass() == "same-tuning" {
 			j.violate("C08", "typecheck/equal-contents-need-sync", fmt.Sprintf("%v: equal contents, different advertised hashes", c), replay)
 		}
 		if err == nil && !equal && !needs {
